@@ -89,13 +89,239 @@ fn mux_panic(_seed: u64) -> serde_json::Value {
     json!({"found": false, "routine": "mux_panic", "tried": 3})
 }
 
+// ---------------------------------------------------------------------------------------------
+// party_sim: compile small graphs with the real compiler for every owner / output-party combination and
+// (C02) track which parties can compute each node of the real compiled graph, (C03) look at what a
+// non-recipient receives, (C01) compare the revealed result with plaintext evaluation.
+mod party_sim {
+    use ciphercore_base::data_types::*;
+    use ciphercore_base::data_values::Value;
+    use ciphercore_base::errors::Result;
+    use ciphercore_base::evaluators::simple_evaluator::SimpleEvaluator;
+    use ciphercore_base::evaluators::{random_evaluate, Evaluator};
+    use ciphercore_base::graphs::util::simple_context;
+    use ciphercore_base::graphs::{Context, Graph, Node, NodeAnnotation, Operation};
+    use ciphercore_base::inline::inline_ops::{InlineConfig, InlineMode};
+    use ciphercore_base::mpc::mpc_compiler::{prepare_for_mpc_evaluation, IOStatus};
+    use serde_json::json;
+
+    #[derive(Clone, Debug)]
+    enum K { Leaf([bool; 3]), Fresh, Tup(Vec<K>) }
+    impl K {
+        fn holders(&self) -> [bool; 3] {
+            match self {
+                K::Leaf(s) => *s,
+                K::Fresh => [false; 3],
+                K::Tup(v) => { let mut r = [true; 3]; for k in v { let h = k.holders(); for i in 0..3 { r[i] &= h[i]; } } r }
+            }
+        }
+        fn send(&self, s: usize, r: usize) -> std::result::Result<K, String> {
+            match self {
+                K::Fresh => { let mut h = [false; 3]; h[s] = true; h[r] = true; Ok(K::Leaf(h)) }
+                K::Leaf(h) => { if !h[s] { return Err(format!("party {} sends a value held only by {:?}", s, h)); } let mut h = *h; h[r] = true; Ok(K::Leaf(h)) }
+                K::Tup(v) => { let mut o = vec![]; for k in v { o.push(k.send(s, r)?); } Ok(K::Tup(o)) }
+            }
+        }
+    }
+
+    pub struct Case { pub name: &'static str, pub types: Vec<Type>, pub build: fn(&Graph, &[Node]) -> Result<Node> }
+
+    pub fn cases() -> Vec<Case> {
+        vec![
+            Case { name: "a+b (i32)", types: vec![scalar_type(INT32), scalar_type(INT32)], build: |_g, i| i[0].add(i[1].clone()) },
+            Case { name: "a-b (i32)", types: vec![scalar_type(INT32), scalar_type(INT32)], build: |_g, i| i[0].subtract(i[1].clone()) },
+            Case { name: "a*b (i32)", types: vec![scalar_type(INT32), scalar_type(INT32)], build: |_g, i| i[0].multiply(i[1].clone()) },
+            Case { name: "a*b+a (u8[2])", types: vec![array_type(vec![2], UINT8), array_type(vec![2], UINT8)], build: |_g, i| i[0].multiply(i[1].clone())?.add(i[0].clone()) },
+            Case { name: "sum(a[1]-b[3]) (i32)", types: vec![array_type(vec![1], INT32), array_type(vec![3], INT32)], build: |_g, i| i[0].subtract(i[1].clone())?.sum(vec![0]) },
+            Case { name: "sum(a[3]+b[1]) (i32)", types: vec![array_type(vec![3], INT32), array_type(vec![1], INT32)], build: |_g, i| i[0].add(i[1].clone())?.sum(vec![0]) },
+            Case { name: "mixed_multiply(i32, bit)", types: vec![scalar_type(INT32), scalar_type(BIT)], build: |_g, i| i[0].mixed_multiply(i[1].clone()) },
+            Case { name: "a AND b (bit[1])", types: vec![array_type(vec![1], BIT), array_type(vec![1], BIT)], build: |_g, i| i[0].multiply(i[1].clone()) },
+        ]
+    }
+
+    fn flat(v: &Value, t: &Type) -> Result<Vec<u64>> { if t.is_scalar() { Ok(vec![v.to_u64(t.get_scalar_type())?]) } else { v.to_flattened_array_u64(t.clone()) } }
+    fn statuses() -> Vec<IOStatus> { vec![IOStatus::Party(0), IOStatus::Party(1), IOStatus::Party(2), IOStatus::Public] }
+
+    fn out_lists() -> Vec<Vec<u64>> {
+        let mut res = vec![vec![]];
+        for a in 0..3u64 { res.push(vec![a]); for b in 0..3u64 { if b == a { continue; } res.push(vec![a, b]); for c in 0..3u64 { if c == a || c == b { continue; } res.push(vec![a, b, c]); } } }
+        res
+    }
+
+    fn compile(case: &Case, owners: &[IOStatus], outs: &[u64]) -> Result<(Context, Context)> {
+        let types = case.types.clone();
+        let build = case.build;
+        let c = simple_context(|g| { let mut ins = vec![]; for t in &types { ins.push(g.input(t.clone())?); } build(g, &ins) })?;
+        let m = prepare_for_mpc_evaluation(&c, vec![owners.to_vec()], vec![outs.iter().map(|p| IOStatus::Party(*p)).collect()],
+            InlineConfig { default_mode: InlineMode::Simple, ..Default::default() })?;
+        Ok((c, m.get_context()))
+    }
+
+    /// C02: static per-party knowledge analysis of the real compiled graph
+    fn knowledge(g: &Graph, owners: &[IOStatus], outs: &[u64]) -> Result<Vec<String>> {
+        let mut v = vec![];
+        let mut ks: Vec<K> = vec![];
+        let mut input_id = 0;
+        for node in g.get_nodes() {
+            let deps: Vec<K> = node.get_node_dependencies().iter().map(|d| ks[d.get_id() as usize].clone()).collect();
+            let send = node.get_annotations()?.into_iter().find_map(|a| match a { NodeAnnotation::Send(s, r) => Some((s as usize, r as usize)), _ => None });
+            let k = match node.get_operation() {
+                Operation::Input(_) => {
+                    let k = match &owners[input_id] {
+                        IOStatus::Party(p) => { let mut h = [false; 3]; h[*p as usize] = true; K::Leaf(h) }
+                        IOStatus::Public => K::Leaf([true; 3]),
+                        IOStatus::Shared => K::Tup((0..3).map(|i| { let mut h = [false; 3]; h[i] = true; h[(i + 2) % 3] = true; K::Leaf(h) }).collect()),
+                    };
+                    input_id += 1;
+                    k
+                }
+                Operation::Random(_) => K::Fresh,
+                Operation::CreateTuple => K::Tup(deps),
+                Operation::TupleGet(i) => match &deps[0] { K::Tup(t) => t[i as usize].clone(), o => o.clone() },
+                Operation::NOP => match send {
+                    Some((s, r)) => match deps[0].send(s, r) {
+                        Ok(k) => k,
+                        Err(m) => { v.push(format!("node {}: Send({},{}): {}", node.get_id(), s, r, m)); let mut h = [false; 3]; h[s] = true; h[r] = true; K::Leaf(h) }
+                    },
+                    None => deps[0].clone(),
+                },
+                _ => { let mut h = [true; 3]; for d in &deps { let dh = d.holders(); for i in 0..3 { h[i] &= dh[i]; } } K::Leaf(h) }
+            };
+            ks.push(k);
+        }
+        let out = g.get_output_node()?;
+        let ko = ks[out.get_id() as usize].clone();
+        if outs.is_empty() {
+            if let K::Tup(t) = &ko {
+                for i in 0..3 { let h = t[i].holders(); if !(h[i] && h[(i + 2) % 3]) { v.push(format!("shared output: share {} is held by {:?}, not by parties {} and {}", i, h, i, (i + 2) % 3)); } }
+            }
+        } else {
+            let h = ko.holders();
+            for p in outs { if !h[*p as usize] { v.push(format!("output party {} never obtains the result (held by {:?})", p, h)); } }
+        }
+        Ok(v)
+    }
+
+    fn run_nodes(g: &Graph, inputs: &[Value], seed: [u8; 16]) -> Result<Vec<Value>> {
+        let mut ev = SimpleEvaluator::new(Some(seed))?;
+        ev.preprocess(&g.get_context())?;
+        let mut vals: Vec<Value> = vec![];
+        let mut input_id = 0;
+        for node in g.get_nodes() {
+            let val = match node.get_operation() {
+                Operation::Input(_) => { input_id += 1; inputs[input_id - 1].clone() }
+                _ => { let d = node.get_node_dependencies().iter().map(|d| vals[d.get_id() as usize].clone()).collect(); ev.evaluate_node(node.clone(), d)? }
+            };
+            vals.push(val);
+        }
+        Ok(vals)
+    }
+
+    fn mk_inputs(case: &Case, which: u64) -> Vec<Value> {
+        case.types.iter().enumerate().map(|(k, t)| {
+            let st = t.get_scalar_type();
+            let n: u64 = if t.is_scalar() { 1 } else { t.get_shape().iter().product() };
+            let vals: Vec<u64> = (0..n).map(|j| if st == BIT { (which >> (k as u64 + j)) & 1 } else { 3 + which * 5 + (k as u64) * 2 + j }).collect();
+            if t.is_scalar() { Value::from_scalar(vals[0], st).unwrap() } else { Value::from_flattened_array(&vals, st).unwrap() }
+        }).collect()
+    }
+
+    pub fn run(seed: u64, want: &str) -> serde_json::Value {
+        let mut tried = 0u64;
+        for case in cases() {
+            let st = statuses();
+            for o0 in &st { for o1 in &st {
+                let owners = vec![o0.clone(), o1.clone()];
+                for outs in out_lists() {
+                    tried += 1;
+                    if std::env::var("REPLAY_DEBUG").is_ok() { eprintln!("case {} {:?} {:?}", case.name, owners, outs); }
+                    let (plain_c, mpc_c) = match compile(&case, &owners, &outs) { Ok(x) => x, Err(e) => return json!({"found": true, "routine": "party_sim", "property": "C01",
+                        "input": {"graph": case.name, "owners": format!("{:?}", owners), "output_parties": outs}, "observed": format!("compile error: {}", e)}) };
+                    let g = mpc_c.get_main_graph().unwrap();
+                    let is_private = owners.iter().any(|o| !matches!(o, IOStatus::Public));
+                    if !is_private { continue; } // all-public graphs are not compiled into protocols
+                    if want == "C02" || want == "any" {
+                        let v = knowledge(&g, &owners, &outs).unwrap();
+                        if !v.is_empty() && is_private {
+                            return json!({"found": true, "routine": "party_sim", "property": "C02", "input": {"graph": case.name, "owners": format!("{:?}", owners), "output_parties": outs},
+                                "observed": v, "expected": "every Send sender holds the value; every listed output party (or every share slot) ends with what it is owed",
+                                "what": "per-party knowledge analysis of the graph produced by prepare_for_mpc_evaluation (real compiler)"});
+                        }
+                    }
+                    if want == "C01" || want == "any" {
+                        let inputs = mk_inputs(&case, seed % 7);
+                        let t = plain_c.get_main_graph().unwrap().get_output_node().unwrap().get_type().unwrap();
+                        let m = t.get_scalar_type().get_modulus();
+                        let res: Result<(Vec<u64>, Vec<u64>)> = (|| {
+                            let expect = random_evaluate(plain_c.get_main_graph()?, inputs.clone())?;
+                            let got = random_evaluate(g.clone(), inputs.clone())?;
+                            let e = flat(&expect, &t)?;
+                            let o = if outs.is_empty() && is_private {
+                                let sh = got.to_vector()?;
+                                let mut acc = vec![0u64; e.len()];
+                                for s in sh {
+                                    let a = flat(&s, &t)?;
+                                    if a.len() != acc.len() { return Err(ciphercore_base::runtime_error!("a share of the output has {} elements, the output type has {}", a.len(), acc.len())); }
+                                    for i in 0..acc.len() { acc[i] = match m { Some(mm) => ((acc[i] as u128 + a[i] as u128) % mm as u128) as u64, None => acc[i].wrapping_add(a[i]) }; }
+                                }
+                                acc
+                            } else { flat(&got, &t)? };
+                            let red = |v: Vec<u64>| -> Vec<u64> { v.into_iter().map(|x| match m { Some(mm) => (x as u128 % mm) as u64, None => x }).collect() };
+                            Ok((red(e), red(o)))
+                        })();
+                        let bad = match &res { Ok((e, o)) => e != o, Err(_) => true };
+                        if bad {
+                            return json!({"found": true, "routine": "party_sim", "property": "C01", "input": {"graph": case.name, "owners": format!("{:?}", owners), "output_parties": outs, "inputs": seed % 7},
+                                "expected": match &res { Ok((e, _)) => json!(e), Err(_) => json!("the value of the source graph") },
+                                "observed": match &res { Ok((_, o)) => json!(o), Err(e) => json!(format!("error: {}", e)) },
+                                "what": "compiled graph evaluated with SimpleEvaluator vs. the source graph"});
+                        }
+                    }
+                    if (want == "C03" || want == "any") && is_private {
+                        // a party that is neither an output recipient nor an input owner must not receive a message that is
+                        // constant over random tapes yet changes with the other parties' inputs
+                        for q in 0..3u64 {
+                            if outs.contains(&q) || owners.iter().any(|o| *o == IOStatus::Party(q)) { continue; }
+                            let mut per_input: Vec<Vec<Vec<Vec<u8>>>> = vec![];
+                            let recv: Vec<usize> = g.get_nodes().iter().filter(|n| n.get_annotations().unwrap().iter().any(|a| matches!(a, NodeAnnotation::Send(_, r) if *r == q))).map(|n| n.get_id() as usize).collect();
+                            for which in [1u64, 2u64, 6u64] {
+                                let inputs = mk_inputs(&case, which);
+                                let mut runs = vec![];
+                                for tape in 0..5u64 {
+                                    let mut sd = [0u8; 16]; sd[0] = tape as u8 + 1; sd[1] = which as u8; sd[2] = (seed & 0xff) as u8;
+                                    let vals = run_nodes(&g, &inputs, sd).unwrap();
+                                    runs.push(recv.iter().map(|id| vals[*id].access_bytes(|b| Ok(b.to_vec())).unwrap_or_default()).collect::<Vec<_>>());
+                                }
+                                per_input.push(runs);
+                            }
+                            for (k, id) in recv.iter().enumerate() {
+                                let constant = per_input.iter().all(|runs| runs.iter().all(|r| r[k] == runs[0][k]) && !runs[0][k].is_empty());
+                                let differs = per_input.iter().any(|runs| runs[0][k] != per_input[0][0][k]);
+                                if constant && differs {
+                                    return json!({"found": true, "routine": "party_sim", "property": "C03", "input": {"graph": case.name, "owners": format!("{:?}", owners), "output_parties": outs, "observer": q, "node": id},
+                                        "observed": "the message is identical for 5 random tapes and changes with the other parties' inputs", "expected": "a party that is neither an input owner nor an output recipient receives only masked (tape-dependent) values",
+                                        "what": "values of Send(_, observer) nodes of the real compiled graph, evaluated node by node"});
+                                }
+                            }
+                        }
+                    }
+                }
+            } }
+        }
+        json!({"found": false, "routine": "party_sim", "tried": tried})
+    }
+}
+
 fn main() {
     let args: Vec<String> = std::env::args().collect();
     let seed: u64 = args.get(2).and_then(|s| s.parse().ok()).unwrap_or(0);
-    std::panic::set_hook(Box::new(|_| {}));
+    if std::env::var("REPLAY_DEBUG").is_err() { std::panic::set_hook(Box::new(|_| {})); }
     let out = match args.get(1).map(|s| s.as_str()) {
         Some("mux_int") => mux_int(seed),
         Some("mux_panic") => mux_panic(seed),
+        Some("party_sim_c01") => party_sim::run(seed, "C01"),
+        Some("party_sim_c02") => party_sim::run(seed, "C02"),
+        Some("party_sim_c03") => party_sim::run(seed, "C03"),
         _ => json!({"found": false, "error": "unknown routine"}),
     };
     println!("{}", out);
